@@ -100,7 +100,13 @@ def run_case(case):
                                                     "XL": "y" * 700_000, "CTL": "\x01\x02" * 150_000, "BSL": "a\\\"" * 300_000,
                                                     "BK1": "..\\cvprobe_n", "BK2": "\\cvprobe_n", "BK3": "a\\..\\..\\cvprobe_n", "BK4": "..\\..\\cvprobe_n",
                                                     "U2": "\u00e9" * 200, "U2a": "a" + "\u00e9" * 200, "U3": "\u30ca" * 120, "U3a": "a" + "\u30ca" * 120,
-                                                    "U3b": "ab" + "\u30ca" * 120, "U4": "\U0001F600" * 90, "U4a": "a" + "\U0001F600" * 90}.get(c, c) for c in case["comps"])
+                                                    "U3b": "ab" + "\u30ca" * 120, "U4": "\U0001F600" * 90, "U4a": "a" + "\U0001F600" * 90,
+                                                    # ordinary (if odd) NAMES that become ".." / "." / an absolute path once something
+                                                    # "cleans" them: a NUL, blanks, line ends, a per-cent escape, full-width dots
+                                                    "Z1": "..\0", "Z2": "\0..", "Z3": ".\0.", "Z0": "\0", "PARENT": parent.lstrip("/"),
+                                                    "W0": " ", "W1": " ..", "W2": ".. ", "W3": "..\n", "W4": "\t..", "W5": "..\r", "W6": "\u00a0..",
+                                                    "P1": "%2e%2e", "P2": "%2E%2E", "P3": ".%2e", "F1": "\uff0e\uff0e", "F2": "\u2025",
+                                                    }.get(c, c) for c in case["comps"])
     env = dict(os.environ, LD_PRELOAD=CFG["shim"], COPIA_SHIM_ROOTS="/", COPIA_SHIM_LOG=os.path.join(d, "log"), RUST_LOG="off")
 
     def serve(reqs, logname):
